@@ -468,9 +468,12 @@ class C11(Check):
                 if not admissible(d, ch):
                     res.count("inadmissible_tuple_template_pairs")
                     continue
-                if any(sg[0] == "liqc" for sg in t) and (d[4].replace("{", "")[:1].isalnum() or d[4].replace("{", "")[:1] in "_"):
+                marker = d[4].replace("{", "")
+                if any(sg[0] == "liqc" for sg in t) and (marker[:1].isalnum() or marker[:1] in "_" or d[1] in marker):
                     # inside {% liquid %} a line that starts with a word character is a tag name, so a comment
-                    # marker starting with one collides with the template text (outside the stated domain)
+                    # marker starting with one collides with the template text; a marker that contains the tag
+                    # end delimiter ("%{}" -> "%}") ends the tag.  Both are collisions (outside the stated
+                    # domain); an empty marker is caught by the first test.
                     res.count("inadmissible_tuple_template_pairs")
                     continue
                 if not comments and d[4:] != DEFAULT[4:]:
